@@ -118,6 +118,16 @@ func init() {
 		Rule: "programs = units of the C02-C09 families generated with --extra-imports; calls = for every document of every unit: UnmarshalJSON called directly and UnmarshalYAML via yaml.v3, each with a zero destination and with a destination previously decoded from a sibling document; plus malformed input for the first two documents (every prefix, trailing garbage, doubled document, invalid UTF-8, nesting depth 10001, lone tokens). distinct_nontrivial = calls that returned an error (the all-or-nothing clause is exercised)"}
 }
 
+func init() {
+	families["C17"] = &rt.Family{Prop: "C17", Module: "MC_C02", PackSize: 1, Judge: "yaml", ForceExtraImports: true, Calls: rt.YamlCalls,
+		More: []rt.Extra{
+			{Module: "MC_C04", Frac: frac(0.5, 1)}, {Module: "MC_C08", Frac: frac(0.2, 1)}, {Module: "MC_C09"},
+			{Module: "MC_C06", ExtraCfg: maxStr(2, 3), Frac: frac(0.3, 1)},
+			{Module: "MC_C07", ExtraCfg: tierCfg, Frac: frac(0.1, 0.5)}, {Module: "MC_C05", Frac: frac(0.01, 0.1)},
+		},
+		Rule: "programs = units of the C02, C04-C09 families generated with --extra-imports; every document that is valid or whose only faults are required / bound / length / pattern / enum violations (no value of a wrong JSON type) is decoded through UnmarshalJSON, through UnmarshalYAML given the JSON text as flow YAML, and through UnmarshalYAML given block-style YAML; verdicts and reflective dumps of the destination must agree. distinct_nontrivial = distinct in-scope (unit, document) pairs"}
+}
+
 func hasMult(u *rt.Unit) bool {
 	b := fmt.Sprint(u.Raw["schema"], u.Raw["defs"])
 	return containsStr(b, "multipleOf")
